@@ -35,6 +35,30 @@ func libParse(rb *avro.ReadBuf, s string) (t time.Time, err error, panicked any)
 	return
 }
 
+// libParseShared is libParse with the message built in one buffer that is used again for every text, the way a
+// caller decodes message after message out of one receive buffer: the previous text is overwritten in place by
+// the next one (at the same address, and for texts of equal length at the same offsets), and after every third
+// call the buffer no longer holds the text at all.
+var c18msg = make([]byte, 0, 4096)
+var c18msgTick int
+
+func libParseShared(rb *avro.ReadBuf, s string) (t time.Time, err error, panicked any) {
+	defer func() {
+		if r := recover(); r != nil {
+			panicked = r
+		}
+		if c18msgTick++; c18msgTick%3 == 0 {
+			for i := range c18msg {
+				c18msg[i] = '9'
+			}
+		}
+	}()
+	c18msg = append(refavro.AppendLong(c18msg[:0], int64(len(s))), s...)
+	rb.Reset(c18msg)
+	err = avrotime.StringCodec{}.Read(rb, unsafe.Pointer(&t))
+	return
+}
+
 var c18rb *avro.ReadBuf
 var c18first bool
 
@@ -160,7 +184,7 @@ func c18Grammar(c *core.Ctx, r *rand.Rand, n int) {
 		if err != nil && strings.Contains(s, ",") {
 			want, err = time.Parse(time.RFC3339, strings.Replace(s, ",", ".", 1))
 		}
-		got, lerr, p := libParse(c18rb, s)
+		got, lerr, p := libParseShared(c18rb, s)
 		c.Eval(1)
 		if p != nil {
 			c.Violate("panic", fmt.Sprintf("parsing %q panicked: %v", s, p), map[string]any{"s": s})
@@ -226,7 +250,7 @@ func c18Sequences(c *core.Ctx, r *rand.Rand, n int) {
 			} else {
 				want, err = time.Parse(time.RFC3339, s)
 			}
-			got, lerr, p := libParse(c18rb, s)
+			got, lerr, p := libParseShared(c18rb, s)
 			c.Eval(1)
 			c.Count("sequence.parses", 1)
 			if p != nil {
@@ -331,7 +355,7 @@ func c18RoundTrip(c *core.Ctx, r *rand.Rand, n int) {
 		s := t.Format(time.RFC3339Nano)
 		c.Journal(c.CurCase(), "t="+s)
 		c.Eval(1)
-		got, lerr, p := libParse(c18rb, s)
+		got, lerr, p := libParseShared(c18rb, s)
 		if p != nil || lerr != nil || !sameTime(got, t) {
 			c.Violate("format-parse", fmt.Sprintf("time %s formatted as %q parses to %s err=%v panic=%v", t, s, got.Format(time.RFC3339Nano), lerr, p), map[string]any{"s": s})
 			continue
@@ -407,7 +431,7 @@ func c18Dates(c *core.Ctx, y0, y1 int) {
 				if err != nil {
 					continue
 				}
-				got, lerr, p := libParse(c18rb, s)
+				got, lerr, p := libParseShared(c18rb, s)
 				c.Eval(1)
 				c.Count("dates", 1)
 				if p != nil || lerr != nil || !sameTime(got, want) {
@@ -461,6 +485,60 @@ func c18ViaReadFile(c *core.Ctx, r *rand.Rand, n int) {
 	c.Count("via-readfile", int64(n))
 }
 
+// c18FieldSweep: every two-digit field of a timestamp takes every value 00..99 (one field at a time), and the
+// pairs (zone hour, zone minute) with either sign, (hour, minute) and (month, day) take all 10^4 combinations.
+// Where the standard library accepts the text the library must agree; everywhere else it must not panic.
+func c18FieldSweep(c *core.Ctx, r *rand.Rand) {
+	base := []int{1 + r.IntN(12), 1 + r.IntN(28), r.IntN(24), r.IntN(60), r.IntN(60), r.IntN(24), r.IntN(60)}
+	year := []int{0, 1, 1970, 2000, 2024, 9999}[r.IntN(6)]
+	frac := []string{"", ".5", ",25", ".123456789"}[r.IntN(4)]
+	try := func(f []int, sign byte) bool {
+		s := fmt.Sprintf("%04d-%02d-%02dT%02d:%02d:%02d%s%c%02d:%02d", year, f[0], f[1], f[2], f[3], f[4], frac, sign, f[5], f[6])
+		c.Journal(c.CurCase(), "sweep s="+s)
+		want, err := time.Parse(time.RFC3339, strings.Replace(s, ",", ".", 1))
+		got, lerr, p := libParseShared(c18rb, s)
+		c.Eval(1)
+		c.Count("sweep.inputs", 1)
+		if p != nil {
+			c.Violate("panic", fmt.Sprintf("parsing %q panicked: %v", s, p), map[string]any{"s": s})
+			return false
+		}
+		if err != nil {
+			return true
+		}
+		c.Count("sweep.stdlib-accepts", 1)
+		if lerr != nil {
+			c.Violate("rejects-valid", fmt.Sprintf("%q is accepted by time.Parse(RFC3339) but the library fails: %v", s, lerr), map[string]any{"s": s})
+			return false
+		}
+		if !sameTime(got, want) {
+			c.Violate("instant", fmt.Sprintf("%q: library %s, standard library %s", s, got.Format(time.RFC3339Nano), want.Format(time.RFC3339Nano)), map[string]any{"s": s})
+			return false
+		}
+		return true
+	}
+	for fi := range base {
+		for v := 0; v < 100; v++ {
+			f := append([]int{}, base...)
+			f[fi] = v
+			if !try(f, "+-"[v%2]) {
+				return
+			}
+		}
+	}
+	for _, pair := range [][2]int{{5, 6}, {2, 3}, {0, 1}} {
+		for a := 0; a < 100; a++ {
+			for b := 0; b < 100; b++ {
+				f := append([]int{}, base...)
+				f[pair[0]], f[pair[1]] = a, b
+				if !try(f, '+') || (pair[0] == 5 && !try(f, '-')) {
+					return
+				}
+			}
+		}
+	}
+}
+
 func runC18(c *core.Ctx, i int) {
 	if c18rb == nil {
 		c18rb = avro.NewReadBuf(nil)
@@ -488,7 +566,7 @@ func runC18(c *core.Ctx, i int) {
 		for _, s := range edge {
 			c.Journal(c.CurCase(), "edge s="+s)
 			want, err := time.Parse(time.RFC3339, s)
-			got, lerr, p := libParse(c18rb, s)
+			got, lerr, p := libParseShared(c18rb, s)
 			c.Eval(1)
 			c.Count("edge-strings", 1)
 			if p != nil {
@@ -516,6 +594,9 @@ func runC18(c *core.Ctx, i int) {
 	}
 	r := c.Rand(i, 0)
 	scale := c.Pick(1, 12)
+	if i%8 == 4 {
+		c18FieldSweep(c, r)
+	}
 	c18Grammar(c, r, 6000*scale)
 	c18RoundTrip(c, r, 3000*scale)
 	c18NoPanic(c, r, 1500*scale)
@@ -532,7 +613,7 @@ func init() {
 		ID:        "C18",
 		Level:     "exploration",
 		Technique: "runtime monitoring: differential oracle (Go standard library time.Parse) over grammar-generated RFC 3339 strings, every calendar date, format/parse round trips and hostile mutations, driven through the exported time codec and ReadFile",
-		Rule: "grammar-generated RFC 3339 strings (two-digit fields, fraction lengths 1..30 with '.' or ',', Z or numeric offset, boundary/out-of-range field values) filtered by standard-library acceptance; every date 0000-01-01..9999-12-31; random time.Time values formatted with RFC3339Nano; prefix/substitution/insertion/deletion mutations for the no-panic clause; history sequences (A, A, [bank closed], B, B, A with B differing from A in one component by +-2^k, k = 0..13); texts decoded into destinations that already hold a time in a named daylight-saving zone whose offset equals the text's; " +
+		Rule: "grammar-generated RFC 3339 strings (two-digit fields, fraction lengths 1..30 with '.' or ',', Z or numeric offset, boundary/out-of-range field values) filtered by standard-library acceptance; every date 0000-01-01..9999-12-31; random time.Time values formatted with RFC3339Nano; prefix/substitution/insertion/deletion mutations for the no-panic clause; every value 00..99 of every two-digit field and all 10^4 combinations of (zone hour, zone minute) with either sign, (hour, minute) and (month, day); history sequences (A, A, [bank closed], B, B, A with B differing from A in one component by +-2^k, k = 0..13); texts decoded into destinations that already hold a time in a named daylight-saving zone whose offset equals the text's; " +
 			"distinct_nontrivial = distinct (fraction length, zone form, separator) classes among stdlib-accepted strings plus date chunks",
 		Explanation: "The domain is defined by time.Parse(RFC3339) acceptance, so the oracle cannot ask for more than the property; results are compared by instant (Equal) and zone offset. Each string is journalled before the call so a panic inside the library is attributed.",
 		Modes: func(tier string) []core.Mode {
@@ -561,6 +642,9 @@ func init() {
 			}
 			if a.C("sequence.neighbour-pairs") < 10000 {
 				u = append(u, fmt.Sprintf("sequence neighbour pairs %d < 10000", a.C("sequence.neighbour-pairs")))
+			}
+			if a.C("sweep.inputs") < 40000 {
+				u = append(u, "two-digit field sweep did not run")
 			}
 			if a.C("nopanic.inputs") < 50000 {
 				u = append(u, "too few no-panic inputs")
